@@ -15,7 +15,7 @@ BUILTINS = {'len', 'abs', 'min', 'max', 'range', 'slice', 'isinstance', 'int', '
             'sum', 'set', 'dict', 'frozenset', 'id', 'type', 'hash', 'getattr', 'repr', 'print', 'zip_longest', 'chain'}
 EXC_NAMES = {'RuntimeError', 'KeyError', 'IndexError', 'ValueError', 'TypeError', 'NotImplementedError',
              'StopIteration', 'AttributeError', 'Exception', 'ZeroDivisionError', 'LookupError'}
-SPECFNS = {'it_pos', 'it_len', 'it_at', 'ufi', 'ube', 'ufd', 'holds', 'ufe', 'ub', 'kind_is', 'np_result_type', 'W', 'frozen', 'same_array', 'dtype_class', 'implies', 'iff', 'forall', 'exists', 'forall_in', 'exists_in', 'old', 'cond', 's_start', 's_stop',
+SPECFNS = {'forall_elem', 'it_pos', 'it_len', 'it_at', 'ufi', 'ube', 'ufd', 'holds', 'ufe', 'ub', 'kind_is', 'np_result_type', 'W', 'frozen', 'same_array', 'dtype_class', 'implies', 'iff', 'forall', 'exists', 'forall_in', 'exists_in', 'old', 'cond', 's_start', 's_stop',
            's_step', 'nth', 'in_slice', 'length', 'at', 'is_none', 'some', 'slice_len_le', 'true', 'false',
            'at_or', 'R_len', 'sum_to'}
 
@@ -697,6 +697,20 @@ class ModuleEnv:
             finally:
                 st.env = saved
             return VBool(z3.ForAll(vs, body) if name == 'forall' else z3.Exists(vs, body))
+        if name == 'forall_elem':      # quantification over the opaque element sort (identities of unmodelled objects)
+            from .sorts import ELEM
+            lam = a[0]
+            if not isinstance(lam, ast.Lambda):
+                raise SpecError('forall_elem needs a lambda')
+            names = [x.arg for x in lam.args.args]
+            vs = [z3.Const(fresh_name(n), ELEM) for n in names]
+            saved = dict(st.env)
+            st.env.update({n: VU(v, 'elem') for n, v in zip(names, vs)})
+            try:
+                body = eng.ev_cond(lam.body, st)
+            finally:
+                st.env = saved
+            return VBool(z3.ForAll(vs, body))
         if name in ('forall_in', 'exists_in'):
             lo = eng.need_int(eng.ev(a[0], st), st, node).t
             hi = eng.need_int(eng.ev(a[1], st), st, node).t
